@@ -219,9 +219,65 @@ def run(ctx):
             lv = leaves(r.get("v", "")) if r.get("r") == "ok" else None
             if lv is not None and len([1 for t, v in lv if t == "mn"]) != 2:
                 oracle_fail.append({"why": "comma separated list inside fences was folded into a number", "xml": xml, "leaves": lv, "block": block, "decimal": dec, "lines": pre[1:] + [{"op": "set_mathml", "xml": xml}]})
+    # ---- 4. the separators follow the locale preferences: (a) inside ONE session the two separator preferences are changed one at a
+    # time (the regexes are cached per thread, keyed by both); (b) language tags, in any letter case, select the separators
+    n_switch = n_tags = 0
+    probes = [[("mn", "3"), ("mo", "·"), ("mn", "14")], [("mn", "1"), ("mo", ","), ("mn", "234")], [("mn", "1"), ("mo", "."), ("mn", "234")], [("mn", "12"), ("mo", "'"), ("mn", "345"), ("mo", "."), ("mn", "5")],
+              [("mn", "1"), ("mtext", " "), ("mn", "234"), ("mo", ","), ("mn", "5")], [("mn", "7"), ("mo", ";"), ("mn", "500")]]
+    SETTINGS = [(", ", "."), (", ", ".·"), (" ", ".·"), (" ", ","), (". ", ","), (". '", ","), (". '", ";"), (",", ";"), (",", "."), ("", "."), ("", ","), (", ", ",")]
+    def fold_outputs(session_pre, settings_chain):
+        reqs = list(session_pre)
+        for b, d in settings_chain:
+            reqs += [{"op": "set_pref", "name": "BlockSeparators", "value": b}, {"op": "set_pref", "name": "DecimalSeparators", "value": d}]
+            for toks in probes:
+                reqs.append({"op": "set_mathml", "xml": CONTEXTS["sum"](tok_xml(toks))})
+        rep = im.run(reqs)[len(session_pre):]
+        out = []
+        for i in range(len(settings_chain)):
+            blockrep = rep[i * (2 + len(probes)) + 2:(i + 1) * (2 + len(probes))]
+            out.append([leaves(r["v"]) if r.get("r") == "ok" else {"r": r.get("r")} for r in blockrep])
+        return out
+    base_pre = [{"op": "session"}, {"op": "rules_dir", "dir": core.rules_dir()}, {"op": "set_pref", "name": "Chemistry", "value": "Off"}]
+    fresh = {st: fold_outputs(base_pre, [st])[0] for st in SETTINGS}
+    for _ in range(6 if ctx.tier == "quick" else 200):
+        chain = [rng.choice(SETTINGS)]
+        for _ in range(6):
+            b, d = chain[-1]
+            cands = [st for st in SETTINGS if (st[0] == b) != (st[1] == d)]        # exactly one of the two changes
+            chain.append(rng.choice(cands or SETTINGS))
+        got = fold_outputs(base_pre + [{"op": "set_mathml", "xml": "<math><mn>1</mn></math>"}], chain)
+        for i, (st, g) in enumerate(zip(chain, got)):
+            n_switch += 1
+            evals += 1
+            if g != fresh[st]:
+                k = next(j for j in range(len(probes)) if g[j] != fresh[st][j])
+                lines = base_pre[1:] + [{"op": "set_mathml", "xml": "<math><mn>1</mn></math>"}]
+                for b, d in chain[:i + 1]:
+                    lines += [{"op": "set_pref", "name": "BlockSeparators", "value": b}, {"op": "set_pref", "name": "DecimalSeparators", "value": d}]
+                lines.append({"op": "set_mathml", "xml": CONTEXTS["sum"](tok_xml(probes[k]))})
+                oracle_fail.append({"why": "folding does not follow a separator preference changed inside a session", "settings_so_far": chain[:i + 1], "tokens": probes[k],
+                                    "in_session": g[k], "fresh_session": fresh[st][k], "lines": lines})
+                break
+    TAGS = ["en", "es", "es-mx", "es-MX", "ES-mx", "de", "de-li", "de-LI", "DE-ch", "de-CH", "fi", "sv-FI", "EN-gb", "en-GB", "fr", "FR", "el-cy", "el-CY", "zh-TW", "vi", "ZZ", "pt-BR", "es-419"]
+    seps = {}
+    for tag in TAGS:
+        reqs = base_pre + [{"op": "set_pref", "name": "DecimalSeparator", "value": "Auto"}, {"op": "set_pref", "name": "Language", "value": tag},
+                           {"op": "get_pref", "name": "DecimalSeparators"}, {"op": "get_pref", "name": "BlockSeparators"}]
+        for toks in probes:
+            reqs.append({"op": "set_mathml", "xml": CONTEXTS["sum"](tok_xml(toks))})
+        rep = im.run(reqs)[len(base_pre) + 2:]
+        seps[tag] = ([r.get("v") if r.get("r") == "ok" else {"r": r.get("r")} for r in rep[:2]], [leaves(r["v"]) if r.get("r") == "ok" else {"r": r.get("r")} for r in rep[2:]], reqs[1:])
+        n_tags += 1
+        evals += 1
+    for tag in TAGS:
+        low = tag.lower()
+        if low != tag and low in seps and seps[tag][:2] != seps[low][:2]:
+            oracle_fail.append({"why": "the separators selected by a language tag depend on its letter case", "tag": tag, "separators": seps[tag][0], "folded": seps[tag][1][:3],
+                                "lower_case_tag": low, "separators_lower": seps[low][0], "folded_lower": seps[low][1][:3], "lines": seps[tag][2]})
     im.close()
     mo.close()
     ctx.coverage.update({
+        "separator_switches_inside_a_session": n_switch, "language_tags": n_tags,
         "evaluations": evals, "distinct_nontrivial": len(nontriv),
         "rule": "H4: generated/mutated number strings (locale grammar, hex blocks, U+FFFF digit runs, junk) on the 7 regexes in 4 separator settings; merge scan: full / partial / junk-injected token "
                 "splits in a neutral context; oracle: unsplit vs full and partial splits in 5 contexts (sum, exponent, fraction, argument, end of sentence) x 4 settings, canonical MathML + speech + braille; "
